@@ -6,9 +6,17 @@ import vlib
 import session_common as sc
 
 
+# clauses of other properties that need connection histories and are therefore judged (and reported) by this check
+OTHER_PROPERTY = {"cs-disagree-": "C11", "session-id-repeats": "C18", "client-random-repeats": "C18", "key-share-repeats": "C18"}
+
+
+def prop_of(why):
+    return next((p for k, p in OTHER_PROPERTY.items() if why.startswith(k)), "C19")
+
+
 def sig_of(row, why):
     cd, ev = row["cd"], row["ev"]
-    return "C19/%s/%s/%s/%s" % (why, sc.spec_label(cd["spec"]), sc.srv_label(cd["srv"]), sc.failure_for(why, ev))
+    return "%s/%s/%s/%s/%s" % (prop_of(why), why, sc.spec_label(cd["spec"]), sc.srv_label(cd["srv"]), sc.failure_for(why, ev))
 
 
 def run(ctx):
@@ -26,7 +34,8 @@ def run(ctx):
     mviol = [s for s in scns if s["mviol"]]
     acc = {"resumed12": 0, "resumed13": 0, "full": 0, "offered_ticket": 0, "second_name": 0, "late_clock": 0, "rotated_keys": 0,
            "same_as_previous": 0, "no_ems_spec": 0, "hrr": 0, "doc_panic": 0,
-           "hrr_cookie_resumed": 0, "build_then_handshake_resumed": 0, "build_edit_handshake_resumed13": 0}
+           "hrr_cookie_resumed": 0, "build_then_handshake_resumed": 0, "build_edit_handshake_resumed13": 0,
+           "ticket_nonce_resumed": 0, "alpn_negotiated": 0, "resumed12_without_alpn_after_alpn": 0, "built_side_by_side": 0, "one_session_given_to_several": 0}
     keep = {}       # canary material: accepted connections (scenario, events, k) by kind
     samples = []
     def same(p, cd):
@@ -35,12 +44,22 @@ def run(ctx):
         if len(samples) < 3 and s["sid"] % max(1, len(scns) // 3) == 1:
             samples.append({"history": ["%s %s %s keys%d day%d" % (sc.spec_label(c["spec"]), c["name"], sc.srv_label(c["srv"]), c["srv"]["keys"], c["clock"]) for c in s["conns"]],
                             "resumed": [[e["c_resumed"], e["s_resumed"]] for e in es], "model_as_coded": s["pred0"], "model_repaired": s["pred1"]})
+        roles = [c["role"] for c in s["conns"]]
+        if "par" in roles and not rejected_ks and all(e["hs_ok"] for e in es):
+            acc["one_session_given_to_several" if roles[0] == "seedB" else "built_side_by_side"] += 1
+            if roles[0] == "conn" and es[1]["c_vers"] == 771 and es[1]["c_resumed"]:
+                keep.setdefault("par", (s, es, len(es)))
         for k, (cd, ev) in enumerate(zip(s["conns"], es), 1):
-            if k in rejected_ks:
+            if k in rejected_ks or cd["role"] != "conn":
                 continue
+            acc["alpn_negotiated"] += len(ev["c_alpn"]) > 0
+            if k > 1 and ev["c_resumed"] and ev["c_vers"] == 771 and not ev["c_alpn"] and es[k - 2]["c_alpn"]:
+                acc["resumed12_without_alpn_after_alpn"] += 1
+                keep.setdefault("noalpn", (s, es, k))
             if ev["c_resumed"] and ev["s_resumed"]:
                 acc["resumed13" if ev["c_vers"] == 772 else "resumed12"] += 1
                 acc["hrr_cookie_resumed"] += cd["srv"]["cookie"] > 0 and len(ev["hellos"]) == 2
+                acc["ticket_nonce_resumed"] += cd["srv"]["nonce"] > 0
                 acc["build_then_handshake_resumed"] += cd["use"] == "build"
                 acc["build_edit_handshake_resumed13"] += cd["use"] == "edit" and ev["c_vers"] == 772
             elif ev["hs_ok"]:
@@ -106,6 +125,17 @@ def run(ctx):
     mutate("ok", lambda ev: ev.update(hs_ok=False, c_resumed=False), "client handshake failure injected")
     mutate("ok", lambda ev: ev.update(s_ok=False), "server abort injected")
     mutate("ems", drop_ems, "extended_master_secret removed from a hello offering an EMS session")
+    mutate("noalpn", lambda ev: ev.__setitem__("c_alpn", [104, 50]), "client NegotiatedProtocol changed to h2 on a resumption without ALPN")
+    mutate("ok", lambda ev: ev.__setitem__("s_suite", ev["s_suite"] ^ 1), "server cipher suite changed")
+    if "par" in keep:
+        s0, es0, k0 = keep["par"]
+        rs = copy.deepcopy(sc.rows_of(s0, es0))
+        for r in rs:
+            r["sid"] = 900000 + len(canaries)
+        rs[-1]["ev"]["hellos"][0][39:71] = rs[-2]["ev"]["hellos"][0][39:71]     # legacy_session_id (32 bytes after the length byte)
+        canaries.append(("legacy_session_id of the previous side-by-side connection copied into the last hello", rs, k0))
+    elif not rej:
+        raise vlib.Machinery("C19: no accepted side-by-side history to build the session-id canary from")
     crow = [r for _, rs, _ in canaries for r in rs]
     crej, _, _ = sc.validate(ctx, crow, "c19canary", nshards=1) if crow else ([], [], 0)
     caught = {(r["sid"], r["k"]) for r, _ in crej}
@@ -117,12 +147,12 @@ def run(ctx):
     lap("confirmation done")
     for row, why in rej2:
         s = by_sid[row["sid"]]
-        ctx.finding(sig_of(row, why), "%s: connection %d of history [%s] -> %s" % (
-            why, row["k"], "; ".join("%s %s %s keys%d day%d" % (sc.spec_label(c["spec"]), c["name"], sc.srv_label(c["srv"]), c["srv"]["keys"], c["clock"]) for c in s["conns"]),
+        ctx.finding(sig_of(row, why), "%s%s: connection %d of history [%s] -> %s" % (
+            "" if prop_of(why) == "C19" else "[property %s, judged by ./check C19 because it needs connection histories] " % prop_of(why), why, row["k"], "; ".join("%s %s %s keys%d day%d" % (sc.spec_label(c["spec"]), c["name"], sc.srv_label(c["srv"]), c["srv"]["keys"], c["clock"]) + ("" if c["role"] == "conn" else " <%s: %s>" % (c["role"], sc.ops_str(c))) for c in s["conns"]),
             sc.first_failure(row["ev"])),
             {"scenario": s, "why": why, "k": row["k"]})
     cov = {"evaluations": n, "distinct_nontrivial": len(scns),
-           "rule": "every history of 3 connections over one ClientSessionCache that Session_MC enumerates: parrots {ticket-only, PSK with/without OmitEmptyPsk, no session extension, TLS 1.2 EMS parrot, the same spec minus extended_master_secret, PSK without ticket extension, custom ticket-only without PreferSkip%s} x servers {TLS 1.2, TLS 1.3, TLS 1.3 + HelloRetryRequest, + HRR cookie of 1 / 32 bytes} x client usage {Handshake, Build+Handshake, Build+SetClientRandom+Handshake} x ticket keys {1,2} x names {a,b} x clock {0, +8 days}; first connection name a/day 0/keys 1, third connection %s; each connection also runs against an empty cache (control); evaluations = connections judged, distinct = histories" % (
+           "rule": "every history of 3 connections over one ClientSessionCache that Session_MC enumerates: parrots {ticket-only, PSK with/without OmitEmptyPsk, no session extension, TLS 1.2 EMS parrot, the same spec minus extended_master_secret, PSK without ticket extension, custom ticket-only without PreferSkip%s} x servers {TLS 1.2, TLS 1.3, TLS 1.3 + HelloRetryRequest, + HRR cookie of 1 / 32 bytes, TLS 1.3 tickets with a ticket_nonce of 1 / 8 / 32 bytes} x client usage {Handshake, Build+Handshake, Build+SetClientRandom+Handshake} x ticket keys {1,2} x names {a,b} x clock {0, +8 days}; first connection name a/day 0/keys 1, third connection %s; second connections also with a different ALPN offer (none / http/1.1 only; C11: both ConnectionStates agree after every connection); plus histories in which 2-3 connections are built from one cache entry before any handshake, or are given one session through SetSessionTicketExtension (C18: legacy_session_id, random, key shares of any two hellos differ); each connection also runs against an empty cache (control); evaluations = connections judged, distinct = histories" % (
                ", more PSK/PQ/Firefox/360 parrots" if deep else "", "over the parrots/servers/names of the first two" if deep else "repeats the second or the first"),
            "accepted": acc, "model_level_counterexamples_as_coded": len(mviol), "canaries": [w for w, _, _ in canaries], "samples": samples, "exhaustive": True}
     return "model_checking", cov, ["Go tls.Server of the same repository acts as the compliant server",
